@@ -58,6 +58,23 @@ theorem eq_earliest_partial (p : Pat) (cfg : Cfg) (evs : List Event) (hfree : p.
 theorem noDrop_of_short_stream (p : Pat) (cfg : Cfg) (evs : List Event) (h : evs.length ≤ cfg.maxRuns) :
     (runAll p cfg evs).1.dropped = false := noDrop_of_length h
 
+/-- C05-style bound inside this model: with the default `Drop` strategy no partition ever holds more than
+`max_runs` active runs, after any stream (hence after every prefix). -/
+theorem runs_bounded (p : Pat) (cfg : Cfg) (evs : List Event) :
+    ∀ k, ((runAll p cfg evs).1.parts k).length ≤ cfg.maxRuns := runAll_bounded p cfg evs
+
+/-- `eq_earliestNF` and `eq_earliest_partial` without the "no run refused" premise, for every stream no longer
+than `max_runs` (default 10 000): at most one run starts per event, so backpressure cannot trigger. -/
+theorem eq_earliestNF_short (p : Pat) (cfg : Cfg) (evs : List Event) (hfree : p.allFree = true)
+    (hlen : evs.length ≤ cfg.maxRuns) : (matchesOf p cfg evs).Perm (Spec.earliestNF p evs) :=
+  matches_perm_earliestNF hfree (noDrop_of_length hlen)
+
+theorem eq_earliest_partial_short (p : Pat) (cfg : Cfg) (evs : List Event) (hfree : p.allFree = true)
+    (hlen : evs.length ≤ cfg.maxRuns) (hg : noNegAtCompletion p evs = true) :
+    (matchesOf p cfg evs).Perm (Spec.earliest p evs) ∧
+    ∀ x ∈ (runAll p cfg evs).2, ∀ m ∈ x.2, m.lastIdx = x.1.idx :=
+  eq_earliest_partial p cfg evs hfree (noDrop_of_length hlen) hg
+
 /-- **the full-strength statement is false**: on the witness `A as a -> B as b .not(B)` / `A B`
 (`c02WitnessPat`, `c02WitnessEvs`) the oracle has one match (the `B` is not
 *before* the completion), the engine emits none. -/
